@@ -35,13 +35,19 @@ Inductive cev :=
    then (for an XLogData message that is forwarded: the WriteLoop at the end of handleXLogData)
    one element per tick of the progress ticker served while the output channel is full: the
    values waiting on the progress channel at that tick and whether the channel is closed after
-   them.  [i_blocked = []] = the output channel had room at once. *)
+   them.  [i_blocked = []] = the output channel had room at once.
+   [i_dies]: the connection dies silently at this message boundary: ReceiveMessage still returns
+   its result, but from then on the connection reports IsClosed().  The client looks at IsClosed()
+   only after a receive ERROR (client.go: "if pgConn.IsClosed() { continue }"); otherwise the death
+   is noticed by the connection manager at its next GetConnWithStartLsn / GetConn call, wherever in
+   the iteration (or in the next one) that is. *)
 Record citer := mkIter {
   i_tick : bool;
   i_prog : list N; i_pclosed : bool;
   i_ev : cev;
   i_prog2 : list N; i_pclosed2 : bool;
-  i_blocked : list (list N * bool) }.
+  i_blocked : list (list N * bool);
+  i_dies : bool }.
 
 Record cstate := mkCst {
   overall : N;          (* overallProgress *)
@@ -172,8 +178,11 @@ Definition cstep (s : cstate) (it : citer) : cstate * list cobs :=
   match handle_progress s (i_tick it) (i_prog it) (i_pclosed it) with
   | None => fatal s []
   | Some (s1, o1) =>
-      let '(s2, o2) := get_start s1 in
+      let '(s2h, o2) := get_start s1 in
       let o := o1 ++ o2 ++ [CRecv] in
+      (* the connection may die right after delivering this result: the manager holds a connection
+         that reports closed, its next call reconnects *)
+      let s2 := if i_dies it then set_conn s2h false else s2h in
       match i_ev it with
       | ETimeout =>
           match handle_progress s2 true (i_prog2 it) (i_pclosed2 it) with
@@ -181,7 +190,10 @@ Definition cstep (s : cstate) (it : citer) : cstate * list cobs :=
           | Some (s3, o3) => (s3, o ++ o3)
           end
       | EClosedErr => (set_conn s2 false, o)
-      | EOtherErr => fatal s2 o
+      | EOtherErr =>
+          (* a non-timeout error: fatal unless the connection reports closed ("connection was
+             closed": continue) - which a connection that died at this boundary does *)
+          if i_dies it then (s2, o) else fatal s2 o
       | ENil | ECopyOther | EParam => (s2, o)
       | EUnexpected | EKeepaliveBad => fatal s2 o
       | EErrorResponse x => let '(s3, o3) := recover s2 x in (s3, o ++ o3)
